@@ -17,10 +17,16 @@ class SymBits:
     name: str
     width: int
     excluded: frozenset = frozenset()
+    neg: bool = False  # only for width 1: the complemented bit
 
     def __repr__(self) -> str:
         ex = f" not in {sorted(self.excluded)}" if self.excluded else ""
-        return f"<{self.name}:{self.width}b{ex}>"
+        return f"<{'~' if self.neg else ''}{self.name}:{self.width}b{ex}>"
+
+    def negated(self) -> "SymBits":
+        if self.width != 1:
+            raise ValueError("negation of a multi-bit symbolic field")
+        return SymBits(self.name, 1, frozenset(), not self.neg)
 
     def eq_const(self, c: int) -> bool | None:
         if c in self.excluded or c < 0 or c >= (1 << self.width):
@@ -254,3 +260,18 @@ def eq(a: Any, b: Any) -> bool | None:
                 return False
             unknown = True
     return None if unknown else True
+
+
+def bounds(a: Any) -> tuple[int, int] | None:
+    """[min, max] of the values a bit record can take (symbolic fields range over their full width)."""
+    fa = to_fields(a)
+    if fa is None:
+        return None
+    lo = hi = 0
+    for l, w, v in fa:
+        if isinstance(v, int):
+            lo += v << l
+            hi += v << l
+        else:
+            hi += ((1 << w) - 1) << l
+    return lo, hi
